@@ -55,3 +55,10 @@ impl<T> VxVecPeek<T> {
 pub fn vx_vec_peekable<T>(v: Vec<T>) -> (r: VxVecPeek<T>)
     ensures r@ == v@
 { unimplemented!() }
+
+/// R-method-map: `v.swap(a, b)` => `vx_vec_swap(&mut v, a, b)` (slice::swap through DerefMut; panics out of bounds)
+#[verifier::external_body]
+pub fn vx_vec_swap<T>(v: &mut Vec<T>, a: usize, b: usize)
+    requires a < old(v)@.len(), b < old(v)@.len()
+    ensures final(v)@ == old(v)@.update(a as int, old(v)@[b as int]).update(b as int, old(v)@[a as int])
+{ v.swap(a, b) }
